@@ -920,6 +920,10 @@ static int32_t reconstruct_omitted_chunk(struct jls_core_s * self, uint16_t sign
     struct jls_fsr_f32_summary_s * s32 = (struct jls_fsr_f32_summary_s *) self->rd_summary->start;
     struct jls_fsr_f64_summary_s * s64 = (struct jls_fsr_f64_summary_s *) self->rd_summary->start;
     int64_t s_index = (sample_id - s32->header.timestamp) / signal_def->sample_decimate_factor;
+    if ((t_index < 0) || (s_index < 0)) {
+        JLS_LOGE("omitted chunk before its index/summary");
+        return JLS_ERROR_IO;
+    }
     bool is_summary_64 = false;
     if (s32->header.entry_size_bits == (4 * sizeof(float) * 8)) {
         //
@@ -1018,13 +1022,19 @@ int32_t jls_core_rd_fsr_level1(struct jls_core_s * self, uint16_t signal_id, int
     if (0 == self->rd_index_chunk.offset) {
         ROE(jls_core_fsr_seek(self, signal_id, 1, start_sample_id));
     }
+    // the cached pair stays invalid until both chunks have been read successfully
     ROE(jls_core_rd_chunk(self));  // index
     jls_buf_copy(self->rd_index, self->buf);
-    self->rd_index_chunk = self->chunk_cur;
+    struct jls_core_chunk_s index_chunk = self->chunk_cur;
 
     ROE(jls_core_rd_chunk(self));  // summary
+    if (self->chunk_cur.hdr.tag != JLS_TAG_TRACK_FSR_SUMMARY) {
+        JLS_LOGW("index at %" PRIi64 " is not followed by its summary", index_chunk.offset);
+        return JLS_ERROR_IO;
+    }
     jls_buf_copy(self->rd_summary, self->buf);
     self->rd_summary_chunk = self->chunk_cur;
+    self->rd_index_chunk = index_chunk;
     return 0;
 }
 
